@@ -1,9 +1,13 @@
 package common
 
 import (
+	"encoding/json"
 	"fmt"
+	"github.com/vapourismo/knx-go/knx/util"
 	"net"
+	"os"
 	"reflect"
+	"sync/atomic"
 	"time"
 
 	"github.com/vapourismo/knx-go/knx/cemi"
@@ -253,4 +257,39 @@ func scribble(v reflect.Value, depth int) {
 // least one data octet, length octet true); every other well-formed block is skipped.
 func KeptDIB(x RDIB) bool {
 	return (x.Type == 3 || x.Type == 4 || x.Type == 5 || x.Type == 0xfe) && len(x.Body) > 0 && int(x.Len) == 2+len(x.Body)
+}
+
+// QuietLogger is a log target that formats every message and throws it away: with a target installed the library's
+// diagnostic lines are executed (their arguments evaluated, their owner's type looked up), without one they are not.
+type QuietLogger struct{ Lines int64 }
+
+func (q *QuietLogger) Printf(format string, args ...interface{}) {
+	_ = fmt.Sprintf(format, args...)
+	atomic.AddInt64(&q.Lines, 1)
+}
+
+// InstallLoggerForOddShards installs a QuietLogger as the library's log target in every second shard of a job (the
+// process environment is part of "any input": an application that has diagnostics switched on decodes the same bytes).
+func InstallLoggerForOddShards(shard int) bool {
+	if shard%2 == 1 {
+		util.Logger = &QuietLogger{}
+		return true
+	}
+	return false
+}
+
+// ReplayShard returns the shard recorded in a replay file (0 if unreadable): jobs whose shards differ in their process
+// environment restore that environment before replaying.
+func ReplayShard(path string) int {
+	b, err := os.ReadFile(path)
+	if err != nil {
+		return 0
+	}
+	var r struct {
+		Shard int `json:"shard"`
+	}
+	if json.Unmarshal(b, &r) != nil {
+		return 0
+	}
+	return r.Shard
 }
